@@ -426,12 +426,13 @@ def check(col, prog, tier, profile, fixture=None):
                 col.violation("Q3", "%s|none-origin" % fk(crt), crt.loc(), "crt returns None without the solver returning None")
             continue
         T = Translator()
-        ok_call = len(eg) == 1 and T.poly(eg[0].args[0]) == T.poly(m1) and T.poly(eg[0].args[1]) == -T.poly(m2) and T.poly(eg[0].args[2]) == T.poly(a2) - T.poly(a1)
+        ok_call = len(eg) == 1 and T.poly(eg[0].args[0]) == T.poly(m1) and T.poly(eg[0].args[1]) in (-T.poly(m2), T.poly(m2)) and T.poly(eg[0].args[2]) == T.poly(a2) - T.poly(a1)
         key = "%s|solver-call" % fk(crt)
         if ok_call:
-            col.ok("Q3", crt.loc(eg[0].bb), key, "egcd(m1, -m2, a2 - a1)")
+            # the sign of m2 only flips y: x solves m1*x = a2 - a1 (mod m2) either way, and only x is used (checked below)
+            col.ok("Q3", crt.loc(eg[0].bb), key, "egcd(m1, -m2 or m2, a2 - a1)")
         else:
-            col.violation("Q3", key, crt.loc(), "crt must solve m1*x - m2*y = a2 - a1")
+            col.violation("Q3", key, crt.loc(), "crt must solve m1*x -+ m2*y = a2 - a1")
         # result = m1 * X + a1 with X = ((x % k) + k) % k, k = m2 / gcd(m1, m2)
         val = ret[2][0]
         res = T.poly(val)
